@@ -148,6 +148,10 @@ func registerTimerModels(e *Engine) {
 		in.call(fr, a[0], nil)
 		return nil
 	})
+	v("Settle", func(in *Interp, fr *frame, fn *ssa.Function, a []Val) Val {
+		in.quiesce()
+		return nil
+	})
 	v("ArmedTimers", func(in *Interp, fr *frame, fn *ssa.Function, a []Val) Val {
 		n := 0
 		for _, r := range in.timers() {
